@@ -14,6 +14,13 @@ fn hexjoin(v: &[Vec<u8>]) -> String {
     if v.is_empty() { "_".into() } else { v.iter().map(|a| hex(a)).collect::<Vec<_>>().join("~") }
 }
 
+/// hostile names, including names that are not valid UTF-8 (arguments must reach the command byte for byte)
+fn exec_names() -> Vec<Vec<u8>> {
+    let mut v = nasty_names();
+    v.extend([b"caf\xe9".to_vec(), b"\xff\xfe".to_vec(), b"a\xc3".to_vec(), b"\xa3 x".to_vec()]);
+    v
+}
+
 /// the recorder's log in the canonical form of the model's answer
 pub fn show_execs(log: &std::path::Path, scene: &std::path::Path) -> String {
     let inv = parse_log(log);
@@ -118,7 +125,7 @@ pub fn run_c09(ctx: &Ctx, sink: &mut Sink) {
     let rec = ctx.recorder().as_os_str().as_bytes().to_vec();
     // the starting point "/" (no parent directory, no file name)
     {
-        let sc = build_scene(ctx, &mut rng, nasty_names(), false);
+        let sc = build_scene(ctx, &mut rng, exec_names(), false);
         for dir in [true, false] {
             let roots = vec![(b"/".to_vec(), crate::world::observe_root_shallow(b"/", std::path::Path::new("/")))];
             let tok = format!("exec:{}:1:{}:{}", dir as u8, hex(&rec), hexjoin(&[b"{}".to_vec(), b"x{}y".to_vec()]));
@@ -130,7 +137,7 @@ pub fn run_c09(ctx: &Ctx, sink: &mut Sink) {
     }
     let scenes = if ctx.thorough { 400 } else { 40 };
     for _si in 0..scenes {
-        let sc = build_scene(ctx, &mut rng, nasty_names(), false);
+        let sc = build_scene(ctx, &mut rng, exec_names(), false);
         for _ci in 0..(if ctx.thorough { 12 } else { 6 }) {
             let dir = rng.chance(1, 2);
             let ok = !rng.chance(1, 8);
@@ -227,7 +234,7 @@ pub fn run_c08(ctx: &Ctx, sink: &mut Sink) {
     let rec = ctx.recorder().as_os_str().as_bytes().to_vec();
     // the starting point "/" has no parent directory: its -execdir batch is dispatched by finished()
     {
-        let sc = build_scene(ctx, &mut rng, nasty_names(), false);
+        let sc = build_scene(ctx, &mut rng, exec_names(), false);
         for (dir, form) in [(true, "execm"), (false, "execm")] {
             let roots = vec![(b"/".to_vec(), crate::world::observe_root_shallow(b"/", std::path::Path::new("/")))];
             let tok = if form == "execm" {
@@ -241,9 +248,30 @@ pub fn run_c08(ctx: &Ctx, sink: &mut Sink) {
         }
         let _ = std::fs::remove_dir_all(&sc.dir);
     }
+    // sibling directories whose entries are evaluated one after the other while the directories
+    // themselves are not (lower depth bound, or a type test): every change of directory ends a batch
+    {
+        let d = ctx.scratch("sib").join("pad").join("w");
+        for (sub, f) in [("a", "f1"), ("a", "f2"), ("b", "f3"), ("c/x", "f4"), ("c/y", "f5")] {
+            std::fs::create_dir_all(d.join("r").join(sub)).unwrap();
+            std::fs::write(d.join("r").join(sub).join(f), b"").unwrap();
+        }
+        let sc = Scene { dir: d.clone(), roots: vec![], names: vec![], extra: vec![] };
+        for pre in [vec!["mindepth:2"], vec!["mindepth:3"], vec!["type:f"], vec!["mindepth:2", "type:f"], vec!["mindepth:2", "depth"], vec!["mindepth:1"]] {
+            for dirflag in [1u8, 0u8] {
+                let roots = vec![(b"r".to_vec(), crate::world::observe_root(b"r", &d.join("r")))];
+                let mut toks: Vec<String> = vec!["sorted".into()];
+                toks.extend(pre.iter().map(|x| x.to_string()));
+                toks.push(format!("execm:0:{dirflag}:1:{}:{}", hex(&rec), hexjoin(&[b"A1".to_vec()])));
+                let (req, imp) = run_exec_case(ctx, &sc, "P", &roots, &ExecCase { toks, script: vec![] }, &mut rng);
+                sink.push(Case { req, imp, tags: vec!["multi", "sibling-dirs", "nt"] });
+            }
+        }
+        let _ = std::fs::remove_dir_all(&d);
+    }
     let scenes = if ctx.thorough { 400 } else { 40 };
     for _si in 0..scenes {
-        let sc = build_scene(ctx, &mut rng, nasty_names(), false);
+        let sc = build_scene(ctx, &mut rng, exec_names(), false);
         for _ci in 0..(if ctx.thorough { 12 } else { 6 }) {
             let dir = rng.chance(1, 2);
             let ok = !rng.chance(1, 10);
@@ -254,10 +282,14 @@ pub fn run_c08(ctx: &Ctx, sink: &mut Sink) {
             let mut toks: Vec<String> = vec![];
             if rng.chance(1, 2) { toks.push("sorted".into()); }
             if rng.chance(1, 4) { toks.push("depth".into()); }
-            match rng.below(5) {
+            match rng.below(7) {
                 0 => toks.push(format!("type:{}", rng.pick(&["f", "d"]))),
                 1 => { toks.push("bang".into()); toks.push("type:d".into()); }
                 2 => toks.push(format!("maxdepth:{}", rng.below(3))),
+                // with a lower depth bound the directories themselves are not evaluated: consecutive
+                // evaluated entries may sit at the same depth in different directories
+                3 => toks.push(format!("mindepth:{}", rng.range(1, 3))),
+                4 => { toks.push(format!("mindepth:{}", rng.range(1, 2))); toks.push("type:f".into()); }
                 _ => {}
             }
             let two = rng.chance(1, 3);
